@@ -281,6 +281,8 @@ inductive FrameErr where
   | tooLarge     -- "exceeds configured limit"
   | unalloc      -- "could not be allocated by a Vec"
   | undecodable  -- "invalid cluster protobuf frame"
+  /-- any other `tokio::io::Error` of the transport (`?` on `read_u64` / `read`): reader stops with "frame_read_error" -/
+  | io
   deriving Repr, DecidableEq
 
 /-- `checked_frame_length` -/
@@ -367,6 +369,24 @@ terminating error. -/
 def readFrames {Msg : Type} (dec : Bytes → Option Msg) (max : Nat) (chunks : List Bytes) :
     List (FrameRes Msg) × List Bytes × List ReadEv :=
   readFramesLoop dec max (streamLen chunks + 1) chunks
+
+/-- A transport that fails: the pieces `chunks` arrive and then, instead of EOF, the next read
+returns an I/O error (`ConnectionReset`, …) when `endIo`. Every `?` of `read_u64` / `read_n_bytes`
+propagates it at exactly the point where an exhausted transport would have produced
+`UnexpectedEof`, so the reader's life is `readFrames` with the final `eof` replaced by `io`. -/
+def ioEnd {Msg : Type} (endIo : Bool) : FrameRes Msg → FrameRes Msg
+  | .err .eof => if endIo then .err .io else .err .eof
+  | r => r
+
+def readFramesIo {Msg : Type} (dec : Bytes → Option Msg) (max : Nat) (chunks : List Bytes) (endIo : Bool) :
+    List (FrameRes Msg) × List Bytes × List ReadEv :=
+  let r := readFrames dec max chunks
+  (r.1.map (ioEnd endIo), r.2)
+
+/-- the stop reason `SessionReader::handle` gives for an error -/
+def stopReason : FrameErr → String
+  | .eof => "channel_closed"
+  | _ => "frame_read_error"
 
 /-- Reference semantics of one frame on the unfragmented stream: outcome and bytes consumed. -/
 def parseOne {Msg : Type} (dec : Bytes → Option Msg) (max : Nat) (s : Bytes) : FrameRes Msg × Nat :=
